@@ -55,6 +55,11 @@ def main():
     bad["strand"][1] = (bad["strand"][1] + 1) % 4
     v = cf.validate(ctx, graphs, tables, [good, bad], name="st3.json")
     expect("Trace_Coding/strand", [x for x in v[1] if x != "precondition-false"] or "ok", v[2])
+    if good.get("tv"):
+        bad2 = copy.deepcopy(good)
+        bad2["tv"][-1] = (bad2["tv"][-1] + 1) % len(graphs[good["g"] - 1])
+        v2 = cf.validate(ctx, graphs, tables, [good, bad2], name="st3b.json")
+        expect("Trace_Coding/tick-vertex", v2[1], v2[2])
     # 4. Repair trace: drop the first candidate
     live = impl.live_of(numpy.array([[-1, -1, -1, -1], [4, -1, -1, 7], [8, -1, -1, 11], [-1, -1, -1, -1], [-1, 1, 2, -1], [-1, -1, -1, -1],
                                      [-1, -1, -1, -1], [-1, 13, 14, -1], [-1, 1, 2, -1], [-1, -1, -1, -1], [-1, -1, -1, -1], [-1, 13, 14, -1],
